@@ -170,6 +170,31 @@ def run(ctx, drv):
                 ctx.fail("nondominated-differs-from-archive", inp, sorted(key(s) for s in nd), sorted(key(s) for s in arch._contents), "core.nondominated")
         ctx.case(("nd", repr(inp)), len(want) < len(sols))
     ctx.count("standalone_filter_cases", 1500 if ctx.quick() else 30000)
+    # ---- one problem object whose directions are declared again between two uses (default-dominance archive and filter)
+    for k in range(400 if ctx.quick() else 6000):
+        nobj = rng.choice([1, 2, 2, 3])
+        constrained = rng.random() < 0.3
+        dirs = tuple(rng.random() < 0.5 for _ in range(nobj))
+        p = mk_problem(nobj, dirs, constrained)
+        for round_ in range(2):
+            sols = [mk_sol(p, [float(rng.randrange(4)) for _ in range(nobj)], float(rng.choice([0, 0, 1])) if constrained else 0.0) for _ in range(rng.randrange(2, 8))]
+            arch = C.Archive()
+            arch += list(sols)
+            nd = call(C.nondominated, list(sols))
+            key = lambda s: (tuple(map(float, s.objectives)), float(s.constraint_violation))
+            want = {key(s) for s in sols if not any(plat.expected_cmp(constrained, dirs, t, s) < 0 for t in sols)}
+            inp = {"maximise": list(dirs), "constrained": constrained, "solutions": [[list(map(float, s.objectives)), float(s.constraint_violation)] for s in sols],
+                   "problem_object": "fresh" if round_ == 0 else "used before with other directions, then re-declared"}
+            if {key(s) for s in arch._contents} != want:
+                ctx.fail("members-not-nondominated-subset", inp, sorted(key(s) for s in arch._contents), sorted(want), "core.Archive.add")
+                break
+            if isinstance(nd, str) or {key(s) for s in nd} != want:
+                ctx.fail("nondominated-is-not-the-nondominated-subset", inp, nd if isinstance(nd, str) else sorted(key(s) for s in nd), sorted(want), "core.nondominated")
+                break
+            dirs = tuple(not d if rng.random() < 0.6 else d for d in dirs)
+            plat.declare_directions(p, dirs, rng.randrange(8))
+        ctx.case(("redeclared", k), True)
+    ctx.count("redeclared_direction_histories", 400 if ctx.quick() else 6000)
     L = 4 if ctx.quick() else 5
     nex = 0
     p = mk_problem(2, (False, False), False)
